@@ -124,4 +124,11 @@ CHECKS = {
         parts=[part("total", "server", ".", "TestVerifC19Total", shards=(8, 16), budget=(150, 900)),
                part("rejects", "server", ".", "TestVerifC19Rejects", shards=(4, 8), budget=(150, 600))],
     ),
+    "C18": dict(
+        level="fault_enumeration", engine="seq",
+        technique="exhaustive enumeration of request kind x credential field x failure point (validation failure, store fault at every call index of create and of every follow-up operation) with the log core swapped for a buffer",
+        text="Canary secrets are placed in every credential field of the three create request kinds; the request is sent through the real HTTP handler plain, with every adversarial validation variant, and with the metadata store failing at each call index of create and of the follow-up get/list/pause/resume/restart/delete/position sequence; every response body and every log line (debug level, process logger swapped for a buffer) is searched for the canaries.",
+        note="Failure points are the first 8 store calls of create and the first 5 of each follow-up; one variant per kind runs the real connectivity probe against a closed loopback port. Log lines of third-party libraries that do not go through core/log are not captured.",
+        parts=[part("secrets", "server", ".", "TestVerifC18Secrets", shards=(8, 16), budget=(150, 600))],
+    ),
 }
